@@ -44,6 +44,17 @@ pub fn install_panic_hook() {
     }));
 }
 
+/// source location relative to the repository (stable across scratch copies) or to the std library
+fn short_loc(loc: &str) -> String {
+    if let Some(i) = loc.find("/repo/") {
+        loc[i + 6..].to_string()
+    } else if let Some(i) = loc.find("/library/") {
+        format!("std:{}", &loc[i + 9..])
+    } else {
+        loc.to_string()
+    }
+}
+
 /// run `f`, turning a panic into a Violation (class `panic`, or `harness` if
 /// the message says so)
 pub fn catch<T>(f: impl FnOnce() -> T) -> Result<T, Violation> {
@@ -61,7 +72,7 @@ pub fn catch<T>(f: impl FnOnce() -> T) -> Result<T, Violation> {
             };
             Err(Violation {
                 class: class.into(),
-                clause: format!("panic@{}", loc.trim_start_matches("/repo/")),
+                clause: format!("panic@{}", short_loc(&loc)),
                 detail: msg,
             })
         }
